@@ -70,7 +70,8 @@ class C03(Prop):
     clauses = [
         ("F", "the QR leg specifications built for a node and any neighbour partition the node's legs; REDUCED bond <= both sides; KEEP bond = the old bond dimension (Props C03_*)"),
         ("F", "canonical_form records the requested centre; iso_check soundness: a store that passes it has, at every non-centre node, exactly one QR-Q atom whose new bond is the leg toward the centre"),
-        ("I", "per explored instance: iso_check evaluated by vm_compute on the model state after every canonical_form / move (model tied exactly to the code)"),
+        ("F", "canonical_form establishes iso_check and move_orthogonalization_center preserves it, on every well-formed tree store, every centre, every mode (C03_canonical_form_iso, C03_move_center_iso); a move ends at the requested node (C03_move_center_reaches); distance_to_node computes tree distances; path_from_to is the tree path"),
+        ("I", "per explored instance: the theorems' hypotheses (build sequence satisfies ops_okb, store wfb, temporary identifier fresh) and, as a cross-check, iso_check itself, evaluated by vm_compute"),
         ("O", "Q of a QR call is an isometry from its bond (KEEP: zero-padded partial isometry) — LAPACK contract, validated numerically at every node"),
         ("V", "state unchanged, centre-norm = full norm: dense einsum oracle"),
     ]
@@ -183,8 +184,24 @@ class C03(Prop):
             idms.append(idm)
             exprs.append(wmodel.coq_crun_obs(ob["ops"], idm))
         vals = coq_eval(ctx, wmodel.IMPORTS, exprs, shard=10, scope="nat_scope", timeout=600)
+        # hypotheses of the universal theorems C03_canonical_form_iso / C03_move_center_iso for this
+        # instance: the build sequence satisfies ops_okb (hence, by C02_run_preserves_wf, the store
+        # is well-formed when the first canonical_form starts) and the temporary identifier is fresh
+        hyp = []
+        for ob, idm in zip(obs, idms):
+            build = [o for o in ob["ops"] if o[0] in ("add_root", "add_child")]
+            body = "[" + "; ".join("(" + wmodel.coq_op(o, idm) + ")" for o in build) + "]"
+            rid = len(idm.r) + 1000
+            hyp.append(f"(ops_okb empty_store {body} && wfb (fst (run empty_store {body})) && negb (amem {rid} (nodes (fst (run empty_store {body})))))%bool")
+        hv = coq_eval(ctx, wmodel.IMPORTS.replace("TTN.Canon", "TTN.Canon TTN.Inv TTN.InvRun"), hyp, shard=40, scope="nat_scope", timeout=600)
         out = []
         self._iso = [0, 0, []]
+        for case, h in zip(cases, hv):
+            self._iso[0] += 1
+            if h is True:
+                self._iso[1] += 1
+            else:
+                self._iso[2].append(f"seed {case['seed']}: hypotheses of the isometry theorems not met: {h}")
         for v, idm in zip(vals, idms):
             if isinstance(v, BaseException):
                 out.append(v)
